@@ -16,6 +16,7 @@ CONSTANTS Routing0,    \* routing mode of this configuration
           Resizes,     \* sequence of requested pool sizes
           MayDrain,    \* DrainRequests may be sent once
           MaxT, TStep, \* clock: now advances in steps of TStep up to MaxT
+          RetryJobs, Retries,   \* jobs submitted as RetriableMessage with MessageRetryStrategy::Count(Retries)
           FreeOrder    \* TRUE: a message handler may run although a death is already queued (the multi-threaded runtime: the
                        \* worker died after the factory had picked the message); FALSE: strict port priority (engine T)
 
@@ -53,10 +54,12 @@ NextJob == env.nsub + 1
 SubmitStep ==
   /\ NextJob <= Len(JobKeys) /\ NextJob <= MaxJ
   /\ LET j == NextJob IN
-     /\ jb' = [jb EXCEPT ![j] = [NoJob EXCEPT !.sub = TRUE, !.key = JobKeys[j], !.ttl = JobTtl[j], !.port = j \in PortJobs, !.born = now, !.undeliv = ~FactoryUp]]
+     /\ jb' = [jb EXCEPT ![j] = [NoJob EXCEPT !.sub = TRUE, !.key = JobKeys[j], !.ttl = JobTtl[j], !.port = j \in PortJobs, !.born = now, !.undeliv = ~FactoryUp,
+                                            !.seq = mon.nseq + 1, !.rleft = IF j \in RetryJobs THEN Retries ELSE 0, !.r0 = IF j \in RetryJobs THEN Retries ELSE 0]]
      /\ fmq' = IF FactoryUp THEN Append(fmq, Msg("dispatch", j, JobKeys[j], "", 0)) ELSE fmq
+  /\ mon' = [mon EXCEPT !.nseq = @ + 1]
   /\ env' = [env EXCEPT !.nsub = @ + 1]
-  /\ UNCHANGED <<cfg, f, fsq, act, now, mon>>
+  /\ UNCHANGED <<cfg, f, fsq, act, now>>
 PostStep(m, e2) == /\ fmq' = (IF FactoryUp THEN Append(fmq, m) ELSE fmq) /\ env' = e2
                    /\ UNCHANGED <<cfg, f, fsq, act, jb, now, mon>>
 EnvResize == env.nres < Len(Resizes) /\ PostStep(Msg("adjust", Resizes[env.nres + 1], 0, "", 0), [env EXCEPT !.nres = @ + 1])
